@@ -1033,6 +1033,13 @@ def m_precondition(I, a, k):
 
 def m_time(I, a, k):
     clk = I.ghost.setdefault("clock", [])
+    script = I.cfg.get("clock_values")
+    if script is not None:
+        if len(clk) >= len(script):
+            raise Undecided("more clock reads than the contract scripted")
+        t = script[len(clk)]
+        clk.append(t)
+        return t
     t = z3.Int(fresh_name("now"))
     if clk:
         I.path.fact(t >= clk[-1], "clock is monotone")
